@@ -51,7 +51,7 @@ class _MetricFunctionWrapper(BaseEstimator):
         self.name = name if name is not None else func.__name__
         self.greater_is_better = greater_is_better
 
-    def __call__(self, y_true, y_pred):
+    def __call__(self, y_true, y_pred, **kwargs):
         """Returns calculated loss metric by passing `y_true` and `y_pred` to
         underlying metric function.
 
@@ -65,6 +65,10 @@ class _MetricFunctionWrapper(BaseEstimator):
                 where fh is the forecasting horizon
             Estimated target values.
 
+        **kwargs : dict
+            Further series required by the underlying metric function
+            (e.g. `y_pred_benchmark`), passed on as keyword arguments.
+
         Returns
         -------
         loss : float
@@ -72,7 +76,7 @@ class _MetricFunctionWrapper(BaseEstimator):
             returns the negative of the metric. If `greater_is_better` attribute
             is False the metric is returned.
         """
-        return self._func(y_true, y_pred)
+        return self._func(y_true, y_pred, **kwargs)
 
 
 class _PercentageErrorMixin:
@@ -103,7 +107,7 @@ class _PercentageErrorMixin:
 
 
 class _SquaredErrorMixin:
-    def __call__(self, y_true, y_pred):
+    def __call__(self, y_true, y_pred, **kwargs):
         """Returns calculated loss metric by passing `y_true` and `y_pred` to
         underlying metric function.
 
@@ -121,12 +125,16 @@ class _SquaredErrorMixin:
                 where fh is the forecasting horizon
             Estimated target values.
 
+        **kwargs : dict
+            Further series required by the underlying metric function
+            (e.g. `y_pred_benchmark`), passed on as keyword arguments.
+
         Returns
         -------
         loss : float
             Calculated loss metric
         """
-        return self._func(y_true, y_pred, square_root=self.square_root)
+        return self._func(y_true, y_pred, square_root=self.square_root, **kwargs)
 
 
 class _SquaredPercentageErrorMixin:
